@@ -49,6 +49,9 @@ def plan(rng, k, emphasis):
     readers = 1 + k % 4
     updaters = 1 + (k // 4) % 3
     extra = []
+    if emphasis == "liveness" and k % 3 == 1:
+        # one parked section per reader and nothing afterwards: a lost wake-up shows up as a deadlock
+        return 1 + k % 2, 1, ["--oneshot", "--pswitch", str(rng.choice([3, 5, 8, 12]))]
     if emphasis == "liveness" or k % 3 == 0:
         extra += ["--park"]
     if emphasis == "liveness" or k % 2 == 0:
@@ -138,9 +141,45 @@ def report(chk, fails, own_kinds, search):
                        % ",".join(sorted(set(sum([x.get("kinds", []) for x in fails], []))))), nofail=True)
 
 
+def sweep(chk, own_kinds, record=True, wide=False):
+    """Systematic one-preemption sweep around the leader's spin->sleep transition (DESIGN §1.2 'bounded systematic
+    DFS'): non-preemptive base schedule; the single parked reader is resumed at global step N for M steps, for every
+    N near a futex event of the base run.  Returns failing results."""
+    fails = []
+    runs = 0
+    for flavor, memb, cname in CONFIGS:
+        base = ["--readers", "1", "--updaters", "1", "--uops", "1", "--oneshot-sweep", "--strategy", "sweep"]
+        args = [os.path.join(vlib.BUILD, "gp_" + flavor), "--seed", "1"] + base
+        rc, out, err = vlib.sh2(args, timeout=60, env={"VRT_MEMBARRIER": str(memb)})
+        marks = [int(x) for x in re.findall(r"^#@ (\d+)$", out, re.M) if int(x) < 500000]
+        pts = set()
+        for m in marks:
+            pts.update(range(max(1, m - (40 if wide else 14)), m + 7))
+        for n in sorted(pts):
+            for ln in ((2, 3, 5, 8, 20) if wide else (2, 3, 8)):
+                r = one(flavor, memb, 1, 1, 1, 0, 1, ["--oneshot-sweep", "--strategy", "sweep", "--preempt-at", str(n),
+                                                       "--preempt-tid", "1", "--preempt-len", str(ln)])
+                runs += 1
+                if r["verdict"] != "ok":
+                    r["config"] = cname
+                    fails.append(r)
+                    if r["verdict"] == "oracle" and any(k in own_kinds for k in r["kinds"]):
+                        if record:
+                            chk.cov["sweep_runs"] = runs
+                        return fails
+    if record:
+        chk.cov["sweep_runs"] = runs
+        chk.cov["evaluations"] += runs
+    return fails
+
+
 def search_own(chk, own_kinds, emphasis, n=400):
     """Extended schedule search with the implementation oracles."""
     def go():
+        if emphasis == "liveness":
+            for r in sweep(chk, own_kinds, record=False, wide=True):
+                if r["verdict"] == "oracle" and any(x in own_kinds for x in r["kinds"]):
+                    return r
         for ci, (flavor, memb, cname) in enumerate(CONFIGS):
             for k in range(n):
                 sd = chk.seed * 1000 + 500000 + k
